@@ -88,6 +88,28 @@ def check(s):
              detail=f"{len(idxs)} distinct index forms")
     if seen != {True, False}:
         raise AnalysisError(f"{con}: expected the cases states present / None")
+    # ------------------------------------------------------------------ constructor: empty buffer of `size` slots
+    bi = s.builder(inline=set())
+    nzi = Normalizer(bi)
+    for p in live(s.paths(bi, "ReplayBuffer", "__init__")):
+        a = p.self_attrs
+        loci = s.loc("ReplayBuffer", "__init__")
+        s.ob("C06.1", "ReplayBuffer.__init__", nzi.canon(a.get("position", NONE)) == ("k", 0) and a.get("size") == ("param", "size"),
+             "a new buffer starts at position 0 with the requested capacity", loci, key="initial-position", detail=f"position={show(a.get('position', NONE))} size={show(a.get('size', NONE))}")
+        shapes_ok = all(nzi.canon(a.get(f, NONE)) == nzi.canon(s.ref(bi, f"jnp.zeros((size,), dtype={dt})", {"size": ("param", "size")}))
+                        or nzi.canon(a.get(f, NONE)) == nzi.canon(s.ref(bi, f"jnp.zeros((self.size,), dtype={dt})", {"self": ("param", "self")}))
+                        for f, dt in (("rewards", "float"), ("dones", "bool"), ("timeouts", "bool")))
+        s.ob("C06.2", "ReplayBuffer.__init__", shapes_ok, "rewards / dones / timeouts are allocated with one slot per capacity unit", loci, key="scalar-fields-shape")
+        for F, src in (("observations", "observation_space"), ("next_observations", "observation_space"), ("actions", "action_space"), ("states", None), ("next_states", None)):
+            v = a.get(F)
+            ok = isinstance(v, tuple) and v[0] == "call" and v[1] == ("global", "jax.tree.map") and len(v[2]) == 2 and isinstance(v[2][0], Closure)
+            if ok:
+                want_src = ("call", ("attr", ("param", src), "canonical"), (), ()) if src else ("param", "state")
+                ok = v[2][1] == want_src
+                leaf = bi.apply(v[2][0], (("param", "$e"),), ())
+                ok = ok and nzi.canon(leaf) == nzi.canon(s.ref(bi, "jnp.broadcast_to(jnp.asarray(e), (size,) + jnp.asarray(e).shape)", {"e": ("param", "$e"), "size": ("attr", ("param", "self"), "size")}))
+            s.ob("C06.2", f"ReplayBuffer.__init__.{F}", ok, f"{F} is allocated as `size` copies of a leaf-shaped example from " + (f"{src}.canonical()" if src else "the policy state"), loci,
+                 key=f"alloc-{F}", detail=show(v or NONE, maxlen=160))
     # ------------------------------------------------------------------ sample
     con3 = "ReplayBuffer.sample"
     loc3 = s.loc("ReplayBuffer", "sample")
